@@ -299,6 +299,12 @@ pub struct Pbt<T: 'static> {
     pub max_shrink: u32,
 }
 
+/// Cases currently being executed by shards of a watched sub-check: (start, case as JSON).
+pub static IN_FLIGHT: Mutex<Vec<Option<(Instant, String)>>> = Mutex::new(Vec::new());
+
+/// Seconds after which a watched case is declared stuck (0 = sub-check not watched).
+pub static WATCH_S: AtomicU64 = AtomicU64::new(0);
+
 fn run_one<T>(test: fn(&T, &mut Obs) -> CheckResult, v: &T, obs: &mut Obs) -> CheckResult {
     match catch(|| test(v, obs)) {
         Ok(r) => r,
@@ -347,8 +353,22 @@ where
                             // another shard already failed: finish quickly
                             return Ok(());
                         }
+                        let watched = WATCH_S.load(Ordering::Relaxed) > 0;
+                        if watched {
+                            let js = serde_json::to_string(&v).unwrap_or_default();
+                            let mut g = IN_FLIGHT.lock().unwrap();
+                            if g.len() <= shard as usize {
+                                g.resize(shard as usize + 1, None);
+                            }
+                            g[shard as usize] = Some((Instant::now(), js));
+                        }
                         let mut obs = Obs::default();
                         let r = run_one(self.test, &v, &mut obs);
+                        if watched {
+                            if let Some(slot) = IN_FLIGHT.lock().unwrap().get_mut(shard as usize) {
+                                *slot = None;
+                            }
+                        }
                         if !failed.get() {
                             if r.is_ok() {
                                 evals.fetch_add(1, Ordering::Relaxed);
@@ -671,7 +691,9 @@ pub fn replay_file(pc: &PropertyCheck, path: &str) -> i32 {
         }
     };
     let sub = v["sub"].as_str().unwrap_or("");
-    let Some(sc) = pc.subs.iter().find(|s| s.name() == sub) else {
+    // a case written by the stuck-case monitor belongs to the (first) watched sub-check
+    let found = pc.subs.iter().find(|s| s.name() == sub).or_else(|| if sub == "stuck" { pc.subs.first() } else { None });
+    let Some(sc) = found else {
         eprintln!("unknown sub-check {sub} for {}", pc.id);
         return 2;
     };
